@@ -105,6 +105,8 @@ func journalClass(path string) string {
 	return "magic-present"
 }
 
+var errRefusedAtOpen = fmt.Errorf("refused at open")
+
 func C09(run *hx.Run) {
 	run.Rule = "a real SQLite writer (python sqlite3, spilling and non-spilling transactions) runs under an LD_PRELOAD shim that counts its file operations on the database and journal (write/pwrite, ftruncate, fsync/fdatasync, unlink); for every (quick: every 3rd plus all sync/unlink/truncate boundaries) k in 1..N the writer is re-run on a fresh copy and killed before operation k, and for write operations also after half of the write (torn); then SQLite recovers a COPY of the (database, journal) pair left behind (reference O_k) and sqlittle opens and reads the ORIGINAL pair: every read operation must fail with an error or equal O_k; when the leftover journal is absent, empty or has no valid magic (clean leftover of a completed commit) reading must succeed and equal O_k. distinct = (scenario, k, variant)"
 	run.Assumptions = append(stdAssumptions, "crash = process death at a system-call boundary (the page cache survives, as for a killed process); torn writes at half length only", "the journal is classified by reading its first bytes: absent / empty / no magic => clean leftover")
@@ -112,6 +114,7 @@ func C09(run *hx.Run) {
 		{"delete", "spill-insert", 1024, false, false},
 		{"truncate", "update-many", 512, false, false},
 		{"persist", "spill-insert", 1024, false, true},
+		{"delete", "update-many", 1024, true, false}, // journal sector (4096) larger than the page
 	}
 	stride := 3
 	if run.Thorough() {
@@ -146,7 +149,12 @@ func C09(run *hx.Run) {
 		bdir := filepath.Join(dir, fmt.Sprintf("base%d", si))
 		os.MkdirAll(bdir, 0o755)
 		base := filepath.Join(bdir, "v.sqlite")
-		if err := makeVersionedDB(o, base, sc.ps, 250); err != nil {
+		// every other scenario uses a database larger than the reader's 100-page cache
+		nrows := 250
+		if si%2 == 1 {
+			nrows = 1600
+		}
+		if err := makeVersionedDB(o, base, sc.ps, nrows); err != nil {
 			run.Inconclusive("base db: " + err.Error())
 			continue
 		}
@@ -234,9 +242,17 @@ func C09(run *hx.Run) {
 				if sc.psow0 {
 					params = "psow=0"
 				}
+				// a handle that was opened (and used) while the database was still clean
+				long, lerr := sqlittle.Open(orig)
+				if lerr == nil {
+					readVersioned(long)
+				}
 				w, err := hx.StartStepper(wdir, orig, sc.jmode, sc.scenario, params, t.variant, t.k, "")
 				if err != nil {
 					run.Inconclusive("crash run: " + err.Error())
+					if long != nil {
+						long.Close()
+					}
 					continue
 				}
 				w.Wait()
@@ -273,47 +289,114 @@ func C09(run *hx.Run) {
 				run.See("leftover_journal", jc)
 				detail := hx.M{"scenario": sc.name(), "k": t.k, "variant": t.variant, "op": opclass, "journal": jc}
 				clean := jc == "absent" || jc == "empty" || jc == "zero-header" || jc == "no-magic"
-				var db *sqlittle.DB
-				var openErr error
-				if p, pm := safely(func() { db, openErr = sqlittle.Open(orig) }); p {
-					run.Violation("C09/panic/open", "Open panicked: "+pm, detail)
-					continue
-				}
-				if openErr != nil {
-					if clean {
-						run.Violation(fmt.Sprintf("C09/clean-leftover-refused/%s/%s", sc.jmode, jc), fmt.Sprintf("%s, writer killed (%s) before op %d (%s): leftover journal is %s, yet Open failed: %v", sc.name(), t.variant, t.k, opclass, jc, openErr), detail)
-					} else {
-						run.See("outcome", "refused-at-open")
-					}
-					continue
-				}
-				view := readVersioned(db)
-				db.Close()
 				nerr, nok := 0, 0
-				for _, op := range verOps {
-					if view.errs[op] != nil {
-						nerr++
+				func() {
+					var db *sqlittle.DB
+					var openErr error
+					if p, pm := safely(func() { db, openErr = sqlittle.Open(orig) }); p {
+						run.Violation("C09/panic/open", "Open panicked: "+pm, detail)
+						return
+					}
+					if openErr != nil {
 						if clean {
-							run.Violation(fmt.Sprintf("C09/clean-leftover-refused/%s/%s", sc.jmode, jc), fmt.Sprintf("%s, writer killed (%s) before op %d (%s): leftover journal is %s, yet %s failed: %v", sc.name(), t.variant, t.k, opclass, jc, op, view.errs[op]), detail)
+							run.Violation(fmt.Sprintf("C09/clean-leftover-refused/%s/%s", sc.jmode, jc), fmt.Sprintf("%s, writer killed (%s) before op %d (%s): leftover journal is %s, yet Open failed: %v", sc.name(), t.variant, t.k, opclass, jc, openErr), detail)
+						} else {
+							run.See("outcome", "refused-at-open")
 						}
+						return
+					}
+					view := readVersioned(db)
+					db.Close()
+					for _, op := range verOps {
+						if view.errs[op] != nil {
+							nerr++
+							if clean {
+								run.Violation(fmt.Sprintf("C09/clean-leftover-refused/%s/%s", sc.jmode, jc), fmt.Sprintf("%s, writer killed (%s) before op %d (%s): leftover journal is %s, yet %s failed: %v", sc.name(), t.variant, t.k, opclass, jc, op, view.errs[op]), detail)
+							}
+							continue
+						}
+						nok++
+						if df := diffRows(want[op], view.ops[op]); df != "" {
+							run.Violation(fmt.Sprintf("C09/unfinished-transaction-read/%s/%s/%s", sc.jmode, jc, opKind(op)), fmt.Sprintf("%s, writer killed (%s) before op %d (%s), leftover journal %s: %s succeeded but differs from SQLite's post-recovery state: %s", sc.name(), t.variant, t.k, opclass, jc, op, df), detail)
+						}
+					}
+					switch {
+					case nok == len(verOps):
+						ver := "?"
+						if len(want["Select/meta"]) == 1 {
+							ver = fmt.Sprint(want["Select/meta"][0][0])
+						}
+						run.See("outcome", "read-equals-recovered-version-"+ver)
+					case nerr == len(verOps):
+						run.See("outcome", "refused-hot-journal")
+					default:
+						run.See("outcome", "mixed")
+					}
+				}()
+				// the same pair through (a) the handle opened before the crash, (b) a fresh handle while
+				// another process holds a read lock on the shared range (a reader, not a writer)
+				extra := []struct {
+					kind string
+					open func() (*sqlittle.DB, func(), error)
+				}{
+					{"long-lived-handle", func() (*sqlittle.DB, func(), error) {
+						if long == nil {
+							return nil, nil, fmt.Errorf("no long handle")
+						}
+						return long, func() {}, nil
+					}},
+					{"fresh-handle-with-foreign-reader", func() (*sqlittle.DB, func(), error) {
+						lh, err := hx.StartLockHolder(orig, "shared:RD")
+						if err != nil {
+							return nil, nil, err
+						}
+						d, err := sqlittle.Open(orig)
+						if err != nil {
+							lh.Release()
+							return nil, func() {}, errRefusedAtOpen
+						}
+						return d, func() { d.Close(); lh.Release() }, nil
+					}},
+				}
+				for _, ex := range extra {
+					if ex.kind != "long-lived-handle" && t.k%4 != 0 && t.op.kind == "write" {
+						continue // the foreign-reader variant is sampled (it spawns a process)
+					}
+					d, done, err := ex.open()
+					if err == errRefusedAtOpen {
+						run.See("outcome_"+ex.kind, "refused-at-open")
 						continue
 					}
-					nok++
-					if df := diffRows(want[op], view.ops[op]); df != "" {
-						run.Violation(fmt.Sprintf("C09/unfinished-transaction-read/%s/%s/%s", sc.jmode, jc, opKind(op)), fmt.Sprintf("%s, writer killed (%s) before op %d (%s), leftover journal %s: %s succeeded but differs from SQLite's post-recovery state: %s", sc.name(), t.variant, t.k, opclass, jc, op, df), detail)
+					if err != nil {
+						continue
+					}
+					v2 := readVersioned(d)
+					done()
+					run.Eval(1)
+					ok2, err2 := 0, 0
+					for _, op := range verOps {
+						if v2.errs[op] != nil {
+							err2++
+							if clean {
+								run.Violation(fmt.Sprintf("C09/clean-leftover-refused/%s/%s/%s", ex.kind, sc.jmode, jc), fmt.Sprintf("%s, writer killed (%s) before op %d (%s): leftover journal is %s, yet %s (%s) failed: %v", sc.name(), t.variant, t.k, opclass, jc, op, ex.kind, v2.errs[op]), detail)
+							}
+							continue
+						}
+						ok2++
+						if df := diffRows(want[op], v2.ops[op]); df != "" {
+							run.Violation(fmt.Sprintf("C09/unfinished-transaction-read/%s/%s/%s", ex.kind, jc, opKind(op)), fmt.Sprintf("%s, writer killed (%s) before op %d (%s), leftover journal %s: %s through a %s succeeded but differs from SQLite's post-recovery state: %s", sc.name(), t.variant, t.k, opclass, jc, op, ex.kind, df), detail)
+						}
+					}
+					if ok2 == len(verOps) {
+						run.See("outcome_"+ex.kind, "read-equals-recovered")
+					} else if err2 == len(verOps) {
+						run.See("outcome_"+ex.kind, "refused")
+					} else {
+						run.See("outcome_"+ex.kind, "mixed")
 					}
 				}
-				switch {
-				case nok == len(verOps):
-					ver := "?"
-					if len(want["Select/meta"]) == 1 {
-						ver = fmt.Sprint(want["Select/meta"][0][0])
-					}
-					run.See("outcome", "read-equals-recovered-version-"+ver)
-				case nerr == len(verOps):
-					run.See("outcome", "refused-hot-journal")
-				default:
-					run.See("outcome", "mixed")
+				if long != nil {
+					long.Close()
 				}
 				if t.k%11 == 0 || t.op.kind != "write" {
 					run.Sample(hx.M{"scenario": sc.name(), "k": t.k, "variant": t.variant, "op": opclass, "journal_left": jc, "ops_ok": nok, "ops_refused": nerr})
